@@ -219,6 +219,42 @@ def r2_answers(ctx):
                         stores.append(n)
         ctx.check(bool(stores), sts[0], f"answer `{var}` is stored",
                   f"the answer `{var}` never reaches the profile")
+    # a number typed by the user is stored into a float container: an
+    # array built from the stored (possibly all-integer) values would
+    # truncate it
+    for st in walk_no_nested(sp, False):
+        if not (isinstance(st, ast.Assign) and isinstance(
+                st.targets[0], ast.Subscript) and isinstance(
+                st.targets[0].value, ast.Name)):
+            continue
+        if not any(isinstance(c, ast.Call) and call_name(c) == "float"
+                   for c in ast.walk(st.value)):
+            continue
+        arr = st.targets[0].value.id
+        defs = [d.value for d in walk_no_nested(sp, False)
+                if isinstance(d, ast.Assign) and norm(d.targets[0]) == arr]
+        for d in defs:
+            calls_np = [c for c in ast.walk(d) if isinstance(c, ast.Call)
+                        and call_name(c) in ("np.array", "np.asarray",
+                                             "numpy.array")]
+            if not calls_np:
+                continue
+            floaty = any(kw.arg == "dtype" and "float" in norm(kw.value)
+                         for c in calls_np for kw in c.keywords) or (
+                isinstance(d, ast.BinOp) and isinstance(
+                    d.op, (ast.Mult, ast.Div)) and any(
+                    isinstance(x, ast.Constant) and isinstance(
+                        x.value, float) for x in (d.left, d.right))) or \
+                ".astype(float)" in norm(d)
+            ctx.check(floaty, st, f"`{arr}` holds floats before "
+                      f"{norm(st)[:40]}",
+                      f"setup_profile writes the number typed by the user "
+                      f"into `{arr} = {norm(d)[:50]}`, an array that takes "
+                      f"the dtype of the stored values: for a profile whose "
+                      f"stored values are all integers (the default [0, 0]) "
+                      f"the entered value is truncated to an integer "
+                      f"(-3e-6 becomes 0) - the stored setting is not the "
+                      f"accepted answer")
     # the true/false answer
     vary_assigns = [n for n in walk_no_nested(sp, False)
                     if isinstance(n, ast.Assign) and isinstance(
